@@ -6,7 +6,8 @@ EXTENDS Tsig, Json
 
 CONSTANTS Lens,        \* stream lengths
           TotalFaults, \* fault actions per exchange
-          Regions      \* tamper regions used
+          Regions,     \* tamper regions used
+          NLens        \* renderings of the one message object of a query / response exchange
 VARIABLES hist, len, nf
 gvars == <<vars, hist, len, nf>>
 AllRegions == SignedRegions \cup UnsignedRegions
@@ -15,13 +16,15 @@ GSkewsBig == {-301, -300, -299, 299, 300, 301}
 
 Hh(e) == hist' = Append(hist, e)
 GInit == /\ Init
-         /\ len \in (IF kind = "stream" THEN Lens ELSE {1})
+         /\ len \in (IF kind = "stream" THEN Lens ELSE NLens)
          /\ nf = 0
          /\ hist = <<[op |-> "start", kind |-> kind, alg |-> skey.alg, hash |-> HashOf(skey.alg), bits |-> MacBits(skey.alg),
                       minbits |-> MinMacBits(skey.alg), key |-> skey.name, fudge |-> fudge, error |-> serror, len |-> len]>>
 Fault == nf < TotalFaults /\ nf' = nf + 1
 GSend == \E s \in BOOLEAN : /\ sent < len /\ (sent + 1 = len => s) /\ Send(s)
                             /\ Hh([op |-> "send", signed |-> s]) /\ UNCHANGED <<len, nf>>
+GResign == \E md \in ResignMods : /\ sent < len /\ Resign(md)
+                                  /\ Hh([op |-> "resign", mod |-> md]) /\ UNCHANGED <<len, nf>>
 GTamper == \E r \in Regions : Tamper(r) /\ Fault /\ Hh([op |-> "tamper", region |-> r]) /\ UNCHANGED len
 GBenign == \E w \in {"benign.id", "benign.owner", "benign.alg"} : Benign(w) /\ Fault /\ Hh([op |-> "benign", what |-> w]) /\ UNCHANGED len
 GMove == MoveTsig /\ Fault /\ Hh([op |-> "move"]) /\ UNCHANGED len
@@ -30,7 +33,7 @@ GConfig == \E w \in {"wrongkey", "wrongname", "wrongalg", "wrongreqmac", "noreqm
               ConfigFault(w) /\ Fault /\ Hh([op |-> "cfault", what |-> w]) /\ UNCHANGED len
 GSkew == \E d \in Skews : ClockSkew(d) /\ Fault /\ Hh([op |-> "skew", d |-> d]) /\ UNCHANGED len
 GDeliver == Deliver /\ Hh([op |-> "deliver"]) /\ UNCHANGED <<len, nf>>
-GNext == GSend \/ GTamper \/ GBenign \/ GMove \/ GStrip \/ GConfig \/ GSkew \/ GDeliver
+GNext == GSend \/ GResign \/ GTamper \/ GBenign \/ GMove \/ GStrip \/ GConfig \/ GSkew \/ GDeliver
 Done == dead \/ (sent = len /\ net = <<>>)
 Emit == Done => PrintT("BEH " \o ToJson(hist))
 =============================================================================
